@@ -34,6 +34,9 @@ def dispatch(pid: str, tier: str) -> int:
     if pid == 'C16':
         from harness import check_det
         return check_det.c16(tier)
+    if pid in ('X01', 'X02'):
+        from harness import check_extra
+        return getattr(check_extra, pid.lower())(tier)
     raise MachineryError(f'no check for {pid}')
 
 
